@@ -37,6 +37,7 @@ This should cover most use cases, but you can use `forger_function` or
 
 """
 
+import threading
 from functools import partial, update_wrapper
 
 from sigtools import _util, modifiers, signatures, _specifiers
@@ -58,7 +59,17 @@ signature = _specifiers.forged_signature
 
 class _AsForged(object):
     def __init__(self):
-        self.currently_computing = set()
+        self._local = threading.local()
+
+    @property
+    def currently_computing(self):
+        # objects whose signature is being computed, for the current thread:
+        # other threads are free to compute the same signature meanwhile
+        try:
+            return self._local.currently_computing
+        except AttributeError:
+            ret = self._local.currently_computing = set()
+            return ret
 
     def __get__(self, instance, owner):
         obj = owner if instance is None else instance
